@@ -5,13 +5,15 @@
 
 using namespace c11;
 
-// Calibrated bounds (multiples of eps of T), see the worst ratios in evidence/C11.json:
-//   toMatrix33 vs long double composition   worst 2.6 eps (double) / 2.4 eps (float)
-//   toQuat (via long double quat->matrix)   worst 3.5 / 3.3 eps
-//   Matrix44::setEulerAngles vs Euler XYZ   worst 1.6 / 1.5 eps
+// Calibrated bounds (multiples of eps of T).  Worst ratios on the unchanged tree over 6*10^7 cases per type
+// (thorough tier, seed 1; also recorded in the evidence on every run):
+//   toMatrix33 vs long double composition        1.51 eps (double) / 1.48 eps (float)
+//   orthonormality / det-1 of toMatrix33         3.06 / 3.16 eps
+//   toQuat: vs reference 2.59 / 2.74, |q|^2-1 3.27 / 3.51, Quat::toMatrix33 vs Euler::toMatrix33 7 / 7 eps
+//   Matrix44::setEulerAngles vs Euler XYZ        1 / 1 eps
 static const double C_TOMATRIX = 32;
 static const double C_ORTHO    = 48;
-static const double C_TOQUAT   = 40;
+static const double C_TOQUAT   = 64;
 static const double C_SETEULER = 24;
 
 // ------------------------------------------------------------------ order(): what was set is what is returned
@@ -260,6 +262,7 @@ to_matrix_one (Ctx& c, uint64_t idx, const OrderInfo& o, unsigned slot, Rng& r)
         }
     }
     if ((idx & 0xffff) < 24 * 32) c.sample (cl, desc);
+    if (c.verbose) std::fprintf (stderr, "[replay] %s\n[replay] %s\n", desc ().c_str (), qdesc ().c_str ());
 }
 
 template <class T>
@@ -270,10 +273,10 @@ sub_to_matrix (Ctx& c, uint64_t idx)
     to_matrix_one<T> (c, idx, orders ()[idx % 24], (unsigned) ((idx / 24) % N_ANGLE_SLOTS), r);
 }
 static const std::vector<std::string> REQ_TOMATRIX = concat (concat (order_class_names (), angle_class_names ()), {"xyz_vs_setEulerAngles"});
-MON_SUB_IDX (sub_to_matrix<double>, "to_matrix_double", 24 * 50000, 24 * 2500000)
+MON_SUB_IDX (sub_to_matrix<double>, "to_matrix_double", 24 * 200000, 24 * 2500000)
     .req (REQ_TOMATRIX)
     .over ("24 orders x 32 angle-class slots (uniform, +-4 periods, middle angle at / within 1e-1..1e-15 of gimbal lock, quarter turns, tiny, 0/pi), double: toMatrix33/44 bit-identity, long double axis composition, orthonormality, det, toQuat, setEulerAngles");
-MON_SUB_IDX (sub_to_matrix<float>, "to_matrix_float", 24 * 50000, 24 * 2500000)
+MON_SUB_IDX (sub_to_matrix<float>, "to_matrix_float", 24 * 200000, 24 * 2500000)
     .req (REQ_TOMATRIX)
     .over ("same as to_matrix_double for Euler<float>");
 
@@ -363,7 +366,7 @@ sub_xyz_layout (Ctx& c, uint64_t idx)
     if ((idx / 12) % 2) xyz_layout_one<double> (c, idx, o, r);
     else xyz_layout_one<float> (c, idx, o, r);
 }
-MON_SUB_IDX (sub_xyz_layout, "xyz_layout", 24 * 20000, 24 * 2000000)
+MON_SUB_IDX (sub_xyz_layout, "xyz_layout", 24 * 50000, 24 * 2000000)
     .req (concat (order_class_names (false, true), {"static_nonrepeated", "rotating_nonrepeated", "static_axis_slot_checked"}))
     .over ("12 non-repeated orders x {float,double} x triples of pairwise distinct values (integers, 2^-20..2^20, +-8pi, -0): Euler(v,o,XYZLayout), Euler(x,y,z,o,XYZLayout), setXYZVector, toXYZVector");
 
